@@ -304,6 +304,42 @@ class SymFP:
 
 INF = z3.Real('__INF'); NAN = z3.Real('__NAN')
 
+class RealFP(SymFP):
+    """REAL-MODEL domain (DESIGN.md 8.7): every double operation is the exact real operation (rounding is outside the claim of a
+    harness that uses it); sqrt/exp/pow/log are uninterpreted with their defining real-number facts; every division records the
+    obligation that its denominator is non-zero (a zero denominator is an inf/NaN in the real code)."""
+    def __init__(s, **kw):
+        SymFP.__init__(s, strict=True); s.div_obl = []; s.real_model = True
+    def fmul(s, a, b): return z3.simplify(a * b)
+    def fadd(s, a, b): return z3.simplify(a + b)
+    def fdiv(s, a, b):
+        a = z3.simplify(a); b = z3.simplify(b)
+        cb = const_frac(b)
+        if cb is None: s.div_obl.append(b != 0)
+        elif cb == 0: s.div_obl.append(z3.BoolVal(False)); return NAN
+        ca = const_frac(a)
+        if ca is not None and ca == 0: return RV(0)
+        return z3.simplify(a / b)
+    def fun1(s, name, a):
+        a = z3.simplify(a); f = s.uf(name, 1); t = f(a)
+        if s.reg(t):
+            if name == 'sqrt':
+                s.ax.append(t >= 0); s.ax.append(z3.Implies(a >= 0, t * t == a))
+            elif name == 'exp':
+                s.ax.append(t > 0); s.ax.append(z3.Implies(a == 0, t == 1)); s.ax.append(z3.Implies(a < 0, t < 1)); s.ax.append(z3.Implies(a > 0, t > 1))
+            elif name in ('log', 'log10'):
+                s.ax.append(z3.Implies(a == 1, t == 0)); s.ax.append(z3.Implies(a > 1, t > 0)); s.ax.append(z3.Implies(z3.And(a > 0, a < 1), t < 0))
+            elif name == 'floor': s.ax.append(t <= a); s.ax.append(t > a - 1)
+            elif name == 'ceil': s.ax.append(t >= a); s.ax.append(t < a + 1)
+        return t
+    def fun2(s, name, a, b):
+        a = z3.simplify(a); b = z3.simplify(b); f = s.uf(name, 2); t = f(a, b)
+        if s.reg(t):
+            if name == 'pow':
+                s.ax.append(z3.Implies(a > 0, t > 0)); s.ax.append(z3.Implies(b == 0, t == 1)); s.ax.append(z3.Implies(a == 1, t == 1)); s.ax.append(z3.Implies(b == 1, t == a))
+        return t
+    def cmp(s, pr, a, b, tie_free=False): return SymFP.cmp(s, pr, a, b, False)
+
 class ConcFP:
     """concrete binary64 domain: the same interpreter run on python floats (translation validation of Engine B)"""
     concrete = True
@@ -1098,6 +1134,33 @@ def cutpoint_candidate(E, c, timeout_ms=15000):
             if mdl is not None: return mdl
     return None
 
+def nlsat_check(E, timeout_ms=60000):
+    """real-model fallback: every uninterpreted application (sqrt/exp/pow of a given argument term) is replaced by one fresh real
+    per distinct term (an over-approximation: only functional consistency across different argument terms is lost; the ground
+    axioms about each application are kept) and the pure QF_NRA problem is decided by z3's nlsat.  unsat carries over; a model is a candidate."""
+    cache = {}; n = [0]
+    def ab(t):
+        k = t.get_id()
+        if k in cache: return cache[k][0]
+        if z3.is_app(t) and t.num_args() > 0:
+            ch = [ab(c) for c in t.children()]
+            if t.decl().kind() == z3.Z3_OP_UNINTERPRETED: r = z3.Real('uf!%d' % n[0]); n[0] += 1
+            else: r = t.decl()(*ch)
+        else: r = t
+        cache[k] = (r, t); return r
+    s2 = z3.Tactic('qfnra-nlsat').solver(); s2.set('timeout', timeout_ms)
+    for a in E.solver.assertions(): s2.add(ab(a))
+    r = zcheck(s2, timeout_ms)
+    return r, (s2.model() if r == z3.sat else None)
+
+def decide(E, ms):
+    """one query on E.solver (with the real-model fallback); returns (verdict, model)"""
+    real = getattr(E.fp, 'real_model', False)
+    r = zcheck(E.solver, min(ms, 8000) if real else ms)
+    if r == z3.sat: return r, E.solver.model()
+    if r == z3.unknown and real: return nlsat_check(E, ms)
+    return r, None
+
 def check_obligations(E, extra_assume=None):
     """decide every obligation recorded on this path: returns list of (name, verdict, model_or_None)"""
     out = []; n_unknown = 0
@@ -1115,7 +1178,7 @@ def check_obligations(E, extra_assume=None):
         t0 = time.time()
         E.solver.push(); E.solver.add(z3.Not(z3.And(sym)))
         if extra_assume is not None: E.solver.add(extra_assume)
-        r = zcheck(E.solver, E.solver_timeout_ms); E.nqueries = getattr(E, 'nqueries', 0) + 1
+        r, _m = decide(E, E.solver_timeout_ms); E.nqueries = getattr(E, 'nqueries', 0) + 1
         E.solver.pop()
         if r == z3.unsat:
             dt = (time.time() - t0) / max(len(E.obligations), 1)
@@ -1141,9 +1204,9 @@ def check_obligations(E, extra_assume=None):
         E.solver.push(); E.solver.add(z3.Not(c))
         if extra_assume is not None: E.solver.add(extra_assume)
         E.flush_axioms()
-        r = zcheck(E.solver, E.solver_timeout_ms); E.nqueries = getattr(E, 'nqueries', 0) + 1
+        r, mdl_ = decide(E, E.solver_timeout_ms); E.nqueries = getattr(E, 'nqueries', 0) + 1
         if r == z3.unsat: out.append((name, 'discharged', None, time.time() - t0))
-        elif r == z3.sat: out.append((name, 'candidate', E.solver.model(), time.time() - t0))
+        elif r == z3.sat: out.append((name, 'candidate', mdl_, time.time() - t0))
         else:
             E.solver.pop()
             mdl = cutpoint_candidate(E, c) if getattr(E, 'use_cutpoints', True) else None
